@@ -8,6 +8,7 @@ import CV.Drv.Auth
 import CV.Drv.Session
 import CV.Drv.VHost
 import CV.Drv.HttpResp
+import CV.Drv.HttpRespFail
 import CV.Drv.WebSocket
 import CV.Drv.Http
 import CV.Drv.Poller
@@ -33,7 +34,7 @@ def machines : List (String × Machine) :=
   [ ("line", lineMachine), ("irc", ircMachine), ("core", CM.coreMachine), ("core2", CM2.core2Machine),
     ("staticpath", staticPathMachine), ("ranges", rangesMachine),
     ("auth", C20.authMachine), ("session", C20.sessionMachine), ("vhost", C20.vhostMachine),
-    ("httpresp", httprespMachine), ("ws", wsMachine), ("wse", wseMachine),
+    ("httpresp", httprespMachine), ("httprespfail", httprespfailMachine), ("ws", wsMachine), ("wse", wseMachine),
     ("http", httpMachine), ("poller", pollerMachine), ("wake", wakeMachine), ("stream", streamMachine), ("node", nodeMachine), ("node2", node2Machine), ("http14", http14Machine), ("conn", C12.connMachine),
     ("classtable", CT.classTableMachine), ("httplex", httplexMachine), ("httpclient", httpclientMachine), ("httppipe", httppipeMachine), ("valuetree", valuetreeMachine) ]
 
